@@ -44,6 +44,38 @@ pub fn rec_corpus(a: &Args, out: &mut Out) {
             }
         }
     }
+    // synthetic short / padded frames of every supported and a few unsupported numbers (C19: a reduced build must call
+    // every number it was not built for "unsupported", whatever the frame looks like, and treat its own like the full build)
+    if a.num("synthetic", 0) == 1 {
+        let mut ns: Vec<u16> = nums.clone();
+        ns.extend([0u16, 1, 1000, 1018, 1070, 1078, 1138, 2000, 4095]);
+        for &n in &ns {
+            for (len, fill) in [(2usize, 0u8), (3, 0xFF), (21, 0), (64, 0x55)] {
+                let mut p = vec![fill; len];
+                p[0] = (n >> 4) as u8;
+                p[1] = ((n & 0xF) << 4) as u8 | (fill & 0x0F);
+                let f = mk_frame(&p, 0);
+                let obs = guarded(|| match next_msg_frame(&f) {
+                    (_, Some(mf)) => {
+                        let m = mf.get_message();
+                        let class = match &m {
+                            Message::Empty => "Empty",
+                            Message::Corrupt => "Corrupt",
+                            Message::MsgNotSupported(_) => "MsgNotSupported",
+                            _ => "Typed",
+                        };
+                        Some((class.to_string(), m.number().map(|x| x as i64).unwrap_or(-1), digest(&format!("{:?}", m))))
+                    }
+                    _ => None,
+                });
+                if let Ok(Some((class, num, dg))) = obs {
+                    hex.push_str(&f.iter().map(|b| format!("{:02x}", b)).collect::<String>());
+                    hex.push('\n');
+                    results.push(json!([n, class, num, dg]));
+                }
+            }
+        }
+    }
     std::fs::write(&hex_path, hex).expect("write corpus");
     out.emit(json!({"ev": "Ref", "supported": nums, "results": results}));
 }
